@@ -816,6 +816,18 @@ func (m *model) purged(opIdx int, op Op, returned bool, snap snapshot) {
 			}
 		}
 		m.detach(ci, key, "purged")
+		if ci == 0 && deleteFault == "error" {
+			// the record survives a failed delete, and which of the earlier writes it is
+			// depends on earlier write faults: the re-created entry is only required to
+			// complete with correct bodies
+			if ng := m.cur[[2]int{ci, key}]; ng != nil {
+				if s := m.storeOf(ci); s != nil && s.has(string(keyBytes(m.sc.Keys[key]))) {
+					ng.state, ng.wasWild = "wild", true
+				} else {
+					ng.stored = nil // nothing can come back from the store: the next request must be a miss
+				}
+			}
+		}
 		if s := m.storeOf(ci); s != nil && !(ci == 0 && deleteFault == "error") {
 			if s.has(string(keyBytes(m.sc.Keys[key]))) {
 				m.viol("C18", "store-copy-left", "op %d: after the purge of key %d the store of cache %d still holds its record", opIdx, key, ci)
